@@ -525,6 +525,11 @@ fn main() {
                 variants.push(("hash", format!("self#jumbf=/c2pa/{{T}}/c2pa.assertions/{h}"), None, false));
                 variants.push(("hash", format!("self#jumbf=/c2pa/{{T}}/c2pa.assertions/{h}"), Some(h.clone()), false));
             }
+            // hard-binding labels in all their spellings (versioned BMFF labels, box hash), whether or not the
+            // ingredient carries such an assertion: listing them as redacted is never allowed
+            for (k, l) in [("hash-bmff-v3", "c2pa.hash.bmff.v3"), ("hash-bmff-v2", "c2pa.hash.bmff.v2"), ("hash-bmff", "c2pa.hash.bmff"), ("hash-boxes", "c2pa.hash.boxes"), ("hash-data", "c2pa.hash.data")] {
+                variants.push((k, format!("self#jumbf=/c2pa/{{T}}/c2pa.assertions/{l}"), None, false));
+            }
             variants.push(("own", "self#jumbf=/c2pa/{T}/c2pa.assertions/org.verif.own".to_string(), None, true));
             for (kind, red, remove, own) in variants {
                 run.eval();
